@@ -188,12 +188,20 @@ def check(ctx):
     for _ in range(ctx.n(1500, 120000)):
         n = rng.randrange(1, 9)
         run(rng.choice(["", " "]).join(rng.choice(atoms) for _ in range(n)), "soup")
+    # leading whitespace + literals + a fault: the marker must still point into the input as given
+    lits = ["\"ab\"", "\"abcdef\"", "#2020-01-01#", "\"x y z\"", "f(\"abc\", 1)", "{\"a\", \"bc\"}", "1.5", "x"]
+    faults = ["?", "@", "0b12", "\"unclosed", "#unclosed", ")", "1 2", "+ *", "0x"]
+    for _ in range(ctx.n(200, 3000)):
+        run(rng.choice([" ", "  ", "   ", "\t", "      "]) + " ".join(rng.choice(lits) for _ in range(rng.randrange(1, 3))) + " " + rng.choice(faults), "lead-ws")
     alphabet = "0123456789abcxyzemsEXC_.+-*/%^!|<>=(){}[],:;\"# \t\n€$£¥±μ\\'&?@~`"
     for _ in range(ctx.n(1500, 120000)):
         run("".join(rng.choice(alphabet) for _ in range(rng.randrange(0, 14))), "chars")
     for text in ["", " ", ";", ";;", "1;", ";1", "%", "(", ")", "1 +", "x =", "=", "1e", "1e-", "0x", "0b2", "#", "\"", "{", "[1,", "f(", "f(1,", "1..", "..1",
                  "1 to", "to m", "1 m to", "1 m |", "1 m^", "1 m^x", "1 m^1.5", "instant", "1.5e400", "2^20000", "10^5000/3", "1/(10^400) + 0.5",
                  "sample(Geometric(1))", "max(5)", "max()", "range(1,2,0)", "ceil(#2020-01-31#)", "#2020-01-01# + 1 ms", "log(8,-2)", "ln(1/10^400)",
+                 "sin(1/1.5e-200/1.5e-200)", "x = 1/1.5e-200/1.5e-200; int(x - x)", "x = pi*1e308; x - x", "x = 2.5*1e308; x*0",
+                 "#2020-01-01# + (1/1.5e-200/1.5e-200) s", "floor(pi*1e308)", "{2.5*1e308}", "1e308 miles", "[1, 1e308]*2.5",
+                 "  \"ab\" ?", "  \"abcdef\" \"ghi\"", "      \"abcdef\" + 0b12", "  #2020-01-01# ?", "   f(\"abc\", \"de\", ?)", "\t \"x y\" @", "   1 + ?",
                  "5!/(0*4!)", "1/(0*3!)", "(2/2)/(0*4!)", "x = 1/(0*3!); 5", "y = 0*4!; 1/y", "0/(0*5!)", "3! m", "{3!}", "P(Binomial(10,.3) < 2.5)", "#2020-13-01#", "#2020-02-30#", "#abc#", "#2020-01-01T25:00#", "1 kdegC",
                  "1 degC^2", "1 degC m", "(1 m) m", "5 to m", "x", "f(1)", "sin(1, 2)", "sin(x: 1)", "options(grid: \"a\")", "options(nosuch: 1)",
                  "1 < 2 < 3 < 4", "1 > 2 < 3", "1 <= 2 > 3", "{1 : 2}", "{x : x in 5}", "{x : x in 1..3, 2}", "a = b = 1", "1 = 1", "1 in 2",
